@@ -177,6 +177,8 @@ class Exec:
             return ("sym", node.id)
         if isinstance(node, ast.Attribute):
             obj = self.ev(node.value, env)
+            if (obj, node.attr) in env.get("$dirty", ()):
+                self.fail(node, "attribute read after it was written on this path")
             if (obj, node.attr) in self.attrs:
                 return self.attrs[(obj, node.attr)]
             return ("attr", obj, node.attr)
@@ -391,15 +393,17 @@ class Exec:
                 self.bind(g.target, item, e2)
                 out.append(self.ev(node.elt, e2))
             return ("list", tuple(out)) if isinstance(node, ast.ListComp) else ("gen", tuple(out))
-        if g.ifs:
-            self.fail(node, "filtered comprehension over a symbolic iterable")
         e2 = dict(env)
         self.bound += 1
         try:
             it2 = self.bind_symbolic_element(g.target, it, e2, node)
             body = self.ev(node.elt, e2)
+            preds = [self.ev(c, e2) for c in g.ifs]
         finally:
             self.bound -= 1
+        if preds:
+            # [body(x) for x in xs if p(x)]
+            return ("filter", preds[0] if len(preds) == 1 else ("bool", "and", tuple(preds)), body, it2)
         return ("map", body, it2)
 
     def bind_symbolic_element(self, target, it, env, node):
@@ -635,6 +639,26 @@ class Exec:
         self.fail(node, "inlined helper with effects")
 
     # ---------------------------------------------------------------------------------------- statements
+    # writes to attributes (self.x = v, self.x[k] = v, self.x += v) are effects (`do $store(target, op, value)`); what such an
+    # attribute holds afterwards is not modelled, so reading it again on the same path is refused
+    @staticmethod
+    def attr_target(t):
+        while isinstance(t, ast.Subscript):
+            t = t.value
+        return isinstance(t, ast.Attribute)
+
+    def ev_target(self, t, env):
+        if isinstance(t, ast.Subscript):
+            return ("sub", self.ev_target(t.value, env), self.index(t.slice, env))
+        return ("attr", self.ev(t.value, env), t.attr)
+
+    def mark_dirty(self, t, env):
+        while isinstance(t, ast.Subscript):
+            t = t.value
+        e2 = dict(env)
+        e2["$dirty"] = tuple(env.get("$dirty", ())) + ((self.ev(t.value, env), t.attr),)
+        return e2
+
     def bind(self, target, value, env):
         if isinstance(target, ast.Name):
             env[target.id] = value
@@ -706,12 +730,23 @@ class Exec:
 
             def after(v2):
                 e2 = dict(env)
+                effs = []
                 for t in targets:
-                    self.assign(t, v2, e2)
-                return cont(e2)
+                    if self.attr_target(t):
+                        effs.append(("call", ("sym", "$store"), (self.ev_target(t, env), const("="), v2), ()))
+                        e2 = self.mark_dirty(t, e2)
+                    else:
+                        self.assign(t, v2, e2)
+                tree = cont(e2)
+                for eff in reversed(effs):
+                    tree = ("do", eff, tree)
+                return tree
 
             return self.hoist(v, after)
         if isinstance(s, ast.AugAssign):
+            if self.attr_target(s.target):
+                eff = ("call", ("sym", "$store"), (self.ev_target(s.target, env), const(BINOPS[type(s.op)] + "="), self.ev(s.value, env)), ())
+                return ("do", eff, cont(self.mark_dirty(s.target, env)))
             cur = self.ev(s.target, env)
             v = self.binop(BINOPS[type(s.op)], cur, self.ev(s.value, env))
             e2 = dict(env)
@@ -813,10 +848,21 @@ class Exec:
         assigned = set()
         for n in ast.walk(s):
             if isinstance(n, (ast.Assign, ast.AugAssign, ast.AnnAssign)):
-                for t in (n.targets if isinstance(n, ast.Assign) else [n.target]):
-                    for m in ast.walk(t):
-                        if isinstance(m, ast.Name):
-                            assigned.add(m.id)
+                todo = list(n.targets if isinstance(n, ast.Assign) else [n.target])
+                while todo:
+                    t = todo.pop()
+                    if isinstance(t, (ast.Tuple, ast.List)):
+                        todo.extend(t.elts)
+                    elif isinstance(t, ast.Starred):
+                        todo.append(t.value)
+                    elif isinstance(t, ast.Name):
+                        assigned.add(t.id)
+                    elif isinstance(t, ast.Subscript):
+                        b_ = t.value
+                        while isinstance(b_, ast.Subscript):
+                            b_ = b_.value
+                        if isinstance(b_, ast.Name):
+                            assigned.add(b_.id)  # a local container written by index; attribute-rooted targets are effects
             if isinstance(n, ast.Call) and isinstance(n.func, ast.Attribute) and isinstance(n.func.value, ast.Name) and n.func.attr in ("append", "extend", "insert", "pop", "clear"):
                 assigned.add(n.func.value.id)
         e2 = dict(env)
@@ -838,14 +884,15 @@ class Exec:
 
             saved = self.loop_sink
             self.loop_sink = lambda kind, e3: paths.append((kind, tuple(self.known[base:]), dict(e3)))
+            itree = None
             try:
-                self.block(list(s.body), e2, done)
+                itree = self.block(list(s.body), e2, done)
             except Untranslatable:
                 pass
             finally:
                 self.loop_sink = saved
             self.probes.append((getattr(s, "lineno", None), tuple(self.known), it2, out))
-            self.loops.append({"line": getattr(s, "lineno", None), "known": tuple(self.known), "iter": it2, "before": dict(env), "paths": paths, "depth": d, "assigned": sorted(assigned)})
+            self.loops.append({"line": getattr(s, "lineno", None), "known": tuple(self.known), "iter": it2, "before": dict(env), "paths": paths, "depth": d, "assigned": sorted(assigned), "tree": itree})
         finally:
             self.bound -= 1
         return d, assigned
@@ -1137,6 +1184,9 @@ def leaves(tree, conds=()):
 def drop_do(tree, keep=lambda call: False):
     """Removes `do` nodes (calls made for their effect: assertions, logging) that the caller does not want to see."""
     if tree[0] == "do":
+        if tree[1][0] == "call" and tree[1][1] == ("sym", "$store") and not keep(tree[1]):
+            # a write to an attribute is state: only a translator that asks for it may see past it
+            raise Untranslatable("symbolic execution: the function writes to %s" % show(tree[1][2][0])[:80], None, "?")
         inner = drop_do(tree[2], keep)
         return ("do", tree[1], inner) if keep(tree[1]) else inner
     if tree[0] == "if":
